@@ -12,10 +12,12 @@
     discipline alone (the property quantifies over steps and resets);
     `C19_reset_restores_with_loads` allows it under both disciplines.
   * Clock: `PropSt.reset` / `PropSt.update` of `EpsieModel.Proposal`.
-  * What the code rejects: `_reset_adaptation` first assigns
-    `self.start_step = self.nsteps`, whose setter raises `ValueError` for a value
-    `< 1`; a reset before the proposal's first completed proposal step raises and
-    changes nothing (`AProp.reset = none`, `C19_reset_rejected_iff`).
+  * What the code rejects: nothing at a reset.  `_reset_adaptation` assigns
+    `self.start_step = max(self.nsteps, 1)`; the `start_step` setter still raises
+    `ValueError` for a value `< 1` (`Alias.setStartStep`), and is never given one
+    (`C19_reset_always_succeeds`).  Before the proposal's first completed proposal
+    step "the current step" is step 1: the clock after such a reset is that of a
+    freshly constructed proposal (`C19_window_step0_as_fresh`).
   * `reset_after_swap`: `PTChain.applySwap` (the apply block of
     `swap_temperatures`).  That the real method call exists at all is not a fact
     of the model: the failing-input search runs real PT samplers with the option
@@ -66,53 +68,69 @@ def RestoredProp (w0 w : World) (p : AProp) : Prop :=
   ∀ j ∈ p.slots, ∀ f, w0.fld p.s j = some f → f.spec.reset ≠ .none →
     ∃ f', w.fld p.s j = some f' ∧ f'.spec = f.spec ∧ w.deref p.s j = some f.v0
 
+/-- **A reset always succeeds** (any proposal, any state, before the first step too): the
+    `start_step` setter is handed `max(nsteps, 1) ≥ 1`, which it accepts; the clock part is
+    `PropSt.reset`, the attributes are re-installed one by one. -/
+theorem C19_reset_always_succeeds (p : AProp) (w : World) :
+    p.reset w = some ({ p with st := p.st.reset },
+                      if p.st.cfg.adaptive then w.run (resetAll p.s p.slots) else w) ∧
+    (p.st.cfg.adaptive = true → p.st.reset.startStep = max p.st.nsteps 1 ∧ 1 ≤ p.st.reset.startStep ∧
+      (1 ≤ p.st.nsteps → p.st.reset.startStep = p.st.nsteps)) := by
+  refine ⟨?_, fun ha => ?_⟩
+  · unfold AProp.reset
+    by_cases ha : p.st.cfg.adaptive = true
+    · have hlt : ¬ max p.st.nsteps 1 < 1 := by omega
+      simp [ha, setStartStep, hlt, PropSt.reset]
+    · have ha' : p.st.cfg.adaptive = false := by simpa using ha
+      simp [ha', PropSt.reset_nonadaptive p.st ha']
+  · have hf := (PropSt.reset_facts p.st ha).2.1
+    refine ⟨hf, by omega, fun h1 => by omega⟩
+
 theorem C19_reset_restores_from_invariant {w : World} (hg : GoodR w) (p : AProp) (p' : AProp) (w' : World)
     (hr : p.reset w = some (p', w')) (ha : p.st.cfg.adaptive = true) :
-    GoodR w' ∧ 1 ≤ p.st.nsteps ∧ p'.st.startStep = p'.st.nsteps ∧ p'.st.startStep = p.st.nsteps ∧
+    GoodR w' ∧ p'.st.startStep = max p'.st.nsteps 1 ∧ p'.st.nsteps = p.st.nsteps ∧
     p'.st.events = [] ∧ RestoredProp w w' p := by
-  unfold AProp.reset at hr
-  rw [if_pos ha] at hr
-  split at hr
-  · cases hr
-  · next hn =>
-    cases hr
-    obtain ⟨g1, _, g3⟩ := restored_resetAll hg p.s p.slots
-    have hf := PropSt.reset_facts p.st ha
-    refine ⟨g1, by omega, ?_, hf.2.1, hf.2.2.2, ?_⟩
-    · show p.st.reset.startStep = p.st.reset.raw / p.st.reset.cfg.k
-      rw [hf.2.1, hf.2.2.1, hf.1]; rfl
-    · intro j hj f hf0 hm
-      obtain ⟨f', hf', hv⟩ := g3 j hj f hf0 hm
-      obtain ⟨f'', hf'', hsp, hv0⟩ := spec_run hf0 (resetAll p.s p.slots)
-      rw [hf'] at hf''; cases hf''
-      refine ⟨f', hf', hsp, ?_⟩
-      show (World.deref _ p.s j) = some f.v0
-      unfold World.deref
-      rw [hf']
-      simp [hv, hv0]
+  rw [(C19_reset_always_succeeds p w).1, if_pos ha] at hr
+  cases hr
+  obtain ⟨g1, _, g3⟩ := restored_resetAll hg p.s p.slots
+  have hf := PropSt.reset_facts p.st ha
+  have hn : p.st.reset.nsteps = p.st.nsteps := by
+    unfold PropSt.nsteps; rw [hf.2.2.1, hf.1]
+  refine ⟨g1, ?_, hn, hf.2.2.2, ?_⟩
+  · show p.st.reset.startStep = max p.st.reset.nsteps 1
+    rw [hn]; exact hf.2.1
+  · intro j hj f hf0 hm
+    obtain ⟨f', hf', hv⟩ := g3 j hj f hf0 hm
+    obtain ⟨f'', hf'', hsp, hv0⟩ := spec_run hf0 (resetAll p.s p.slots)
+    rw [hf'] at hf''; cases hf''
+    refine ⟨f', hf', hsp, ?_⟩
+    show (World.deref _ p.s j) = some f.v0
+    unfold World.deref
+    rw [hf']
+    simp [hv, hv0]
 
 /-- **A reset restores, every time** (fine table).  After ANY interleaving `pre` of
     updates and resets (any number, of any attributes of any samplers), a successful
-    `_reset_adaptation` of an adaptive proposal leaves `start_step = nsteps`, an empty
+    `_reset_adaptation` of an adaptive proposal leaves `start_step = max(nsteps, 1)`, an empty
     adaptation record, and every attribute that the reset restores or recomputes with
     exactly its construction-time content; and the resulting state again satisfies the
     invariant, so the same holds after every later reset. -/
 theorem C19_reset_restores_spec (pre : List EOp) (hpre : Disciplined pre) (p p' : AProp) (w' : World)
     (hr : p.reset (World.empty.run pre) = some (p', w')) (ha : p.st.cfg.adaptive = true) :
-    p'.st.startStep = p'.st.nsteps ∧ p'.st.events = [] ∧
+    p'.st.startStep = max p'.st.nsteps 1 ∧ p'.st.events = [] ∧
     RestoredProp (World.empty.run pre) w' p ∧ GoodR w' := by
   have hg := goodR_empty.run pre hpre
-  obtain ⟨g, _, h1, _, h2, h3⟩ := C19_reset_restores_from_invariant hg p p' w' hr ha
+  obtain ⟨g, h1, _, h2, h3⟩ := C19_reset_restores_from_invariant hg p p' w' hr ha
   exact ⟨h1, h2, h3, g⟩
 
 /-- The same from the measured family table: `ResetDiscipline tbl →` for all
     interleavings of steps and resets, right after each reset every adaptive
     proposal's restored attributes equal their construction-time values and
-    `start_step = nsteps`. -/
+    `start_step = nsteps` (`= 1` before the first completed proposal step). -/
 theorem C19_reset_restores (tbl : List Family) (h : ResetDiscipline tbl) (pre : List EOp)
     (hpre : FromTable tbl pre) (p p' : AProp) (w' : World)
     (hr : p.reset (World.empty.run pre) = some (p', w')) (ha : p.st.cfg.adaptive = true) :
-    p'.st.startStep = p'.st.nsteps ∧ p'.st.events = [] ∧ RestoredProp (World.empty.run pre) w' p :=
+    p'.st.startStep = max p'.st.nsteps 1 ∧ p'.st.events = [] ∧ RestoredProp (World.empty.run pre) w' p :=
   let r := C19_reset_restores_spec pre (C19_disciplined_of_table h hpre) p p' w' hr ha
   ⟨r.1, r.2.1, r.2.2.1⟩
 
@@ -121,9 +139,9 @@ theorem C19_reset_restores_with_loads (pre : List EOp)
     (hpre : ∀ op ∈ pre, op.specs FieldSpec.copyOK ∧ op.specs FieldSpec.resetSafe)
     (p p' : AProp) (w' : World)
     (hr : p.reset (World.empty.run pre) = some (p', w')) (ha : p.st.cfg.adaptive = true) :
-    p'.st.startStep = p'.st.nsteps ∧ p'.st.events = [] ∧ RestoredProp (World.empty.run pre) w' p := by
+    p'.st.startStep = max p'.st.nsteps 1 ∧ p'.st.events = [] ∧ RestoredProp (World.empty.run pre) w' p := by
   have hg := (good_empty.run pre hpre).toGoodR
-  obtain ⟨_, _, h1, _, h2, h3⟩ := C19_reset_restores_from_invariant hg p p' w' hr ha
+  obtain ⟨_, h1, _, h2, h3⟩ := C19_reset_restores_from_invariant hg p p' w' hr ha
   exact ⟨h1, h2, h3⟩
 
 /-- Completeness of the reset for a measured variant table: every attribute that an
@@ -138,21 +156,14 @@ theorem C19_non_adapted_never_written (w : World) (s j : Nat) (v : Buf) (f : Fie
     (hf : w.fld s j = some f) (hna : f.spec.adapted = false) : w.write s j v = w := by
   simp [World.write, hf, hna]
 
-/-- What the code rejects: the reset of an adaptive proposal raises (and changes
-    nothing) exactly when no proposal step has been completed yet. -/
-theorem C19_reset_rejected_iff (p : AProp) (w : World) (ha : p.st.cfg.adaptive = true) :
-    p.reset w = none ↔ p.st.nsteps < 1 := by
-  unfold AProp.reset
-  rw [if_pos ha]
-  split <;> simp_all
-
 /-- **The window restarts at the current step**, whatever the jump interval: after a
     reset and any number of further updates the adaptation clock reads
-    `nsteps − (nsteps at the reset) + 1`, and nothing of the earlier history is left. -/
+    `nsteps − max(nsteps at the reset, 1) + 1`, and nothing of the earlier history is left. -/
 theorem C19_window_restarts (p : PropSt) (ha : p.cfg.adaptive = true) (us : List (Bool × AR × List Val)) :
-    (p.reset.advance us).startStep = p.nsteps ∧
+    (p.reset.advance us).startStep = max p.nsteps 1 ∧
     (p.reset.advance us).raw = p.raw + us.length ∧
-    (p.reset.advance us).dkUpdate = ((p.reset.advance us).nsteps : Int) - (p.nsteps : Int) + 1 ∧
+    (p.reset.advance us).dkUpdate =
+      ((p.reset.advance us).nsteps : Int) - ((max p.nsteps 1 : Nat) : Int) + 1 ∧
     p.reset.events = [] := by
   have hf := PropSt.reset_facts p ha
   have ha' := PropSt.advance_facts p.reset us
@@ -160,19 +171,47 @@ theorem C19_window_restarts (p : PropSt) (ha : p.cfg.adaptive = true) (us : List
   unfold PropSt.dkUpdate
   rw [ha'.2.1, hf.2.1]
 
+/-- The clock value at the first update after a reset: 1 once a proposal step has been
+    completed, 0 (as at construction) before. -/
+def firstDk (p : PropSt) : Int := if p.nsteps = 0 then 0 else 1
+
 /-- **…and the proposal adapts for a full window again** (jump interval 1): of the `n`
-    updates after a reset exactly `cnt window T 1 n` change the distribution,
-    independently of everything before the reset. -/
+    updates after a reset exactly `cnt window T (firstDk p) n` change the distribution,
+    independently of everything else before the reset. -/
 theorem C19_window_full (p : PropSt) (ha : p.cfg.adaptive = true) (hk : p.cfg.k = 1)
     (us : List (Bool × AR × List Val)) :
-    (p.reset.advance us).events.length = PropSt.cnt p.cfg.window p.cfg.T 1 us.length := by
+    (p.reset.advance us).events.length = PropSt.cnt p.cfg.window p.cfg.T (firstDk p) us.length := by
   have hf := PropSt.reset_facts p ha
   have := PropSt.events_advance p.reset (by rw [hf.1]; exact hk) us
   rw [this, hf.2.2.2, hf.1]
-  have hdk : p.reset.dkUpdate = 1 := by
-    unfold PropSt.dkUpdate PropSt.nsteps
-    rw [hf.2.1, hf.2.2.1, hf.1]; unfold PropSt.nsteps; omega
+  have hdk : p.reset.dkUpdate = firstDk p := by
+    unfold PropSt.dkUpdate firstDk
+    have hn : p.reset.nsteps = p.nsteps := by unfold PropSt.nsteps; rw [hf.2.2.1, hf.1]
+    rw [hn, hf.2.1]
+    split <;> omega
   rw [hdk]; simp
+
+/-- Before the first completed proposal step a reset leaves the clock of a freshly
+    constructed proposal (`start_step = 1`): the following updates adapt exactly as its do. -/
+theorem C19_window_step0_as_fresh (p : PropSt) (ha : p.cfg.adaptive = true) (hk : p.cfg.k = 1)
+    (h0 : p.nsteps = 0) (h1 : p.cfg.start0 = 1) (us : List (Bool × AR × List Val)) :
+    (p.reset.advance us).dkUpdate = ((PropSt.fresh p.cfg).advance us).dkUpdate ∧
+    (p.reset.advance us).events.length = ((PropSt.fresh p.cfg).advance us).events.length := by
+  have hf := PropSt.reset_facts p ha
+  have hraw : p.raw = 0 := by
+    have : p.raw / p.cfg.k = 0 := h0
+    rw [hk] at this; simpa using this
+  have a1 := PropSt.advance_facts p.reset us
+  have a2 := PropSt.advance_facts (PropSt.fresh p.cfg) us
+  refine ⟨?_, ?_⟩
+  · unfold PropSt.dkUpdate PropSt.nsteps
+    rw [a1.1, a1.2.1, a1.2.2, a2.1, a2.2.1, a2.2.2, hf.1, hf.2.1, hf.2.2.1, h0, hraw]
+    simp [PropSt.fresh, h1]
+  · rw [C19_window_full p ha hk us, PropSt.events_advance (PropSt.fresh p.cfg) hk us]
+    have hdk : (PropSt.fresh p.cfg).dkUpdate = 0 := by
+      simp [PropSt.dkUpdate, PropSt.nsteps, PropSt.fresh, h1]
+    rw [hdk]
+    simp [firstDk, h0, PropSt.fresh]
 
 /-- A freshly constructed proposal (`start_step = 1`) never adapts at its very first
     update; its next `n` updates adapt exactly as often as the `n` updates after a reset. -/
@@ -189,12 +228,20 @@ theorem C19_window_same_as_fresh (cfg : PropCfg) (hk : cfg.k = 1) (h1 : cfg.star
   exact PropSt.cnt_shift _ _ _ hw
 
 /-- Closed forms: a full window is `T − 1` updates (Veitch), `T − 2` (Andrieu–Thoms
-    style guards `1 < dk`), every update (Sivia–Skilling). -/
+    style guards `1 < dk`), every update (Sivia–Skilling) — whether the clock starts at 1
+    (reset after a completed step) or at 0 (construction, reset before the first step). -/
 theorem C19_window_length (T n : Nat) :
     PropSt.cnt .veitch T 1 n = min n (T - 1) ∧
     PropSt.cnt .at T 1 (n + 1) = min n (T - 2) ∧
-    PropSt.cnt .ss T 1 n = n := by
-  refine ⟨?_, ?_, PropSt.cnt_ss T 1 n⟩
+    PropSt.cnt .ss T 1 n = n ∧
+    PropSt.cnt .veitch T 0 (n + 1) = min n (T - 1) ∧
+    PropSt.cnt .at T 0 (n + 2) = min n (T - 2) := by
+  refine ⟨?_, ?_, PropSt.cnt_ss T 1 n, ?_, ?_⟩
+  rotate_left 2
+  · rw [PropSt.cnt_shift _ _ _ (Or.inl rfl), PropSt.cnt_veitch T n 1 (by omega)]; omega
+  · rw [PropSt.cnt_shift _ _ _ (Or.inr rfl), PropSt.cnt, show ((1 : Int) + 1) = 2 from rfl,
+      PropSt.cnt_at T n 2 (by omega)]
+    simp [PropSt.inWin]; omega
   · rw [PropSt.cnt_veitch T n 1 (by omega)]; omega
   · rw [PropSt.cnt, show ((1 : Int) + 1) = 2 from rfl, PropSt.cnt_at T n 2 (by omega)]
     simp [PropSt.inWin]; omega
@@ -262,6 +309,13 @@ example : Disciplined demoPre := by
 example : (World.empty.run demoPre).deref 0 0 = some (.nums [9]) := by decide
 example : ((demoProp.reset (World.empty.run demoPre)).map fun r => (r.2.deref 0 0, r.1.st.startStep)) =
     some (some (.nums [1]), 3) := by decide
+
+/-- The same proposal before any step. -/
+def demoProp0 : AProp := { st := { cfg := demoCfg, raw := 0, startStep := 1, events := [] }, s := 0, slots := [0] }
+
+/-- A reset before any step: it succeeds, the window starts at step 1 with the clock at 0. -/
+example : ((demoProp0.reset (World.empty.run [.construct 0 0 goodStd (.nums [1]) none])).map
+    fun r => (r.2.deref 0 0, r.1.st.startStep, r.1.st.dkUpdate)) = some (some (.nums [1]), 1, 0) := by decide
 
 def veitchRow : Family :=
   { name := "adaptive_normal", known := true, symmetric := true, adaptive := true, window := .veitch,
